@@ -26,6 +26,8 @@ import (
 	"verif/h/internal/core"
 	"verif/h/internal/rng"
 	"verif/shim/goshim"
+
+	"github.com/xunleichain/tc-wasm/vm"
 )
 
 func init() {
@@ -338,6 +340,54 @@ type chainCase struct {
 	// per-height sample
 	sample []map[string]interface{}
 	blocks []string
+	// what is needed to re-execute the block under examination on fresh replicas (diagnosis of a violation)
+	diagParts *types.PartSet
+	diagDBs   map[string]dbm.DB
+}
+
+// viol reports a violation of the differential oracle; the key is refined when the difference can be
+// attributed to the process-wide cache of compiled WASM modules (vm.AppCache): the same block on the same
+// committed bytes gives another result once that cache is emptied.
+func (cc *chainCase) viol(key, detail string, wit interface{}) {
+	if cc.diagParts != nil && cc.diagDBs != nil {
+		run := func(clear bool) map[string]string {
+			fn, err := chainkit.OpenNode(cc.g, copyDBs(cc.diagDBs), chainkit.NodeOpts{MemCfg: noCacheCfg()})
+			if err != nil {
+				return nil
+			}
+			defer fn.Close()
+			wire(fn)
+			if clear {
+				clearAppCache()
+			}
+			fb, _, err := decode(cc.diagParts)
+			if err != nil {
+				return nil
+			}
+			ok, _, pan := checkBlock(fn, fb, 1)
+			comp, has := extract(fn, fb.Hash())
+			if comp == nil {
+				comp = map[string]string{}
+			}
+			comp["verdict"] = fmt.Sprint(ok, has, pan != nil)
+			return comp
+		}
+		a, b := run(false), run(true)
+		if a != nil && b != nil {
+			for _, k := range append([]string{"verdict"}, components...) {
+				if a[k] != b[k] {
+					key += "/depends-on-wasm-app-cache"
+					detail += fmt.Sprintf(" [re-executed on two replicas reopened from the same bytes: %s differs between the process-wide WASM module cache as left by earlier executions and an empty one]", k)
+					break
+				}
+			}
+		}
+	}
+	cc.c.Violation(key, detail, wit)
+}
+
+func clearAppCache() {
+	vm.AppCache.Range(func(k, _ interface{}) bool { vm.AppCache.Delete(k); return true })
 }
 
 func kindsOf(w *world, b *types.Block) []string {
@@ -357,7 +407,7 @@ func (cc *chainCase) compare(height uint64, what string, order []string, ref, re
 	for _, comp := range order {
 		a, b := ref.Comp[comp], rec.Comp[comp]
 		if a != b {
-			cc.c.Violation("divergence/"+comp,
+			cc.viol("divergence/"+comp,
 				fmt.Sprintf("height %d (%s): %s of replica %q (GOMAXPROCS %d) differs from replica %q (GOMAXPROCS %d): %s vs %s", height, what, comp, rec.Kind, rec.Procs, ref.Kind, ref.Procs, short(b), short(a)),
 				map[string]interface{}{"height": height, "comparison": what, "component": comp, "replica_a": ref.Kind, "value_a": a, "replica_b": rec.Kind, "value_b": b, "block_tx_kinds": kinds, "chain": cc.sample})
 			return false
